@@ -39,7 +39,16 @@ func Parse(patchFileName string, src []byte) (*File, error) {
 }
 
 // Apply takes the Go file name and its contents and returns a Go file with the patch applied.
-func (f *File) Apply(filename string, src []byte) ([]byte, error) {
+func (f *File) Apply(filename string, src []byte) (_ []byte, err error) {
+	// Code generated from an ill-typed patch can be malformed in ways that
+	// go/ast, go/printer and our own post-processing do not expect and make
+	// them panic. Turn that into an error.
+	defer func() {
+		if rec := recover(); rec != nil {
+			err = fmt.Errorf("could not update %q: %v", filename, rec)
+		}
+	}()
+
 	base, err := parser.ParseFile(f.fset, filename, src, parser.AllErrors|parser.ParseComments)
 	if err != nil {
 		return nil, fmt.Errorf("could not parse %q: %w", filename, err)
